@@ -564,6 +564,9 @@ func (ss *SegStore) initAndBackFillColumn(key string, ssType SS_DTYPE,
 		if recNum != 0 {
 			log.Debugf("EncodeColumns: newColumn=%v showed up in the middle, backfilling it now", key)
 			ss.backFillPastRecords(key, ssType, recNum, colBlooms, colRis, colWip)
+			// the backfilled records are 1 byte wide: the column no longer has one consistent
+			// value size, even if it had in the earlier blocks of this segment
+			ss.updateColValueSizeInAllSeenColumns(key, 1)
 		}
 	}
 	allColsInBlock[key] = true
